@@ -26,9 +26,10 @@ def parse_root(ctx) -> Tuple[GNode, ast.Call]:
     fn = prog.method("Module", "parseString")
     calls = [c for c in ast.walk(fn) if isinstance(c, ast.Call) and isinstance(c.func, ast.Attribute)
              and c.func.attr in PARSE_METHODS]
-    if len(calls) != 1:
-        raise AnalysisError(f"Module.parseString: expected one parse call, found {len(calls)}")
-    call = calls[0]
+    if not calls or len({unparse(c.func.value) for c in calls}) != 1:
+        raise AnalysisError(f"Module.parseString: expected parse call(s) on one receiver, found "
+                            f"{[unparse(c.func.value) for c in calls]}")
+    call = sorted(calls, key=lambda c: c.lineno)[0]
     recv = dotted(call.func.value)
     if recv is None or "." not in recv:
         raise AnalysisError(f"Module.parseString: cannot resolve receiver {unparse(call.func.value)}")
@@ -367,3 +368,58 @@ def rule_recursion_evidence(ctx, rep: Report, rid="Z2"):
                 f"recursive rule with {len(ors)} alternation(s) on the cycle: memoisation (Z1) is what "
                 f"keeps re-parsing of alternatives bounded", gloc(f))
     rep.units["recursive_cycles_with_alternations"] = len(cyc)
+
+
+def rule_recursion_fanout(ctx, rep: Report, rid="Z4"):
+    """On every recursive cycle at most one alternative of any alternation can re-enter the cycle for
+    the same input prefix - unless the memo table is unbounded.  With pyparsing's default 128-entry
+    FIFO memo a second overlapping alternative re-parses the nested level once its entry has been
+    evicted, i.e. the work multiplies per nesting level."""
+    g = ctx.grammar
+    root, _ = parse_root(ctx)
+    unbounded = False
+    for e in g.events:
+        if e.kind == "parser_element_call" and e.method in ("enablePackrat", "enable_packrat"):
+            lim = e.args[0] if e.args else e.kw.get("cache_size_limit", "default")
+            unbounded = lim is None
+    n = 0
+    for f in g.reachable(root):
+        if f.kind != "Forward" or not f.children or f.attrs.get("wraps_forward"):
+            continue
+        body = g.reachable(f.children[0])
+        if not any(x.uid == f.uid for x in body):
+            continue            # not recursive
+
+        def reaches_f(node, _seen=None):
+            _seen = _seen or set()
+            if node.uid == f.uid:
+                return True
+            if node.uid in _seen:
+                return False
+            _seen.add(node.uid)
+            return any(reaches_f(c, _seen) for c in node.children)
+
+        for o in body:
+            if o.kind not in ("Or", "MatchFirst") or o.uid == f.uid:
+                continue
+            alts = [a for a in o.children if reaches_f(a)]
+            if not alts:
+                continue
+            n += 1
+            clash = []
+            for i in range(len(alts)):
+                for j in range(i + 1, len(alts)):
+                    fa, fb = first_terms(alts[i]), first_terms(alts[j])
+                    common = {t for t in fa if t in fb}
+                    common |= {("Word", "*") for (k, _t) in fa if k == "Word" for (k2, _t2) in fb if k2 == "Word"}
+                    if common:
+                        clash.append((alts[i].describe(), alts[j].describe()))
+            ok = not clash or unbounded
+            rep.add(rid, f"cycle:{f.label or f.describe()}:alternation {ctx_label(g, o)}:one re-entering alternative per prefix", ok,
+                    f"{len(alts)} alternatives of this alternation re-enter the recursive rule and can start on the same "
+                    f"token(s) ({clash[:2]}): each nesting level is then parsed once per alternative whenever its memo "
+                    f"entry has been evicted (default memo: 128-entry FIFO), i.e. cost grows exponentially with depth"
+                    if not ok else f"{len(alts)} re-entering alternative(s)", gloc(o))
+    rep.units["alternations_on_recursive_cycles"] = n
+    if n < 2:
+        raise AnalysisError(f"{rep.prop}/{rid}: {n} alternations on recursive cycles, 2 expected (Namespace, TemplatedType)")
